@@ -752,6 +752,25 @@ def rule_each(env, shared):
                 helper_defs.append(hp[0] if hp else None)
             if d0_ and all(h is not None for h in helper_defs):
                 good = len(helper_defs) >= 2 and all(_acc_threaded(hb, hctx, 1) for (hb, hctx) in helper_defs)
+            elif d0_ and any(h is not None for h in helper_defs):
+                # one arm in a helper (`return fold_one_by_one(iter, neutral, f)`), the other written out: the helper threads its
+                # own accumulator from the `neutral` it is given, the rest of the algorithm threads the other
+                helper_blocks = {x[0] for x, h in zip(d0_, helper_defs) if h is not None}
+                neutral_ok = True
+                for x, h in zip(d0_, helper_defs):
+                    if h is None:
+                        continue
+                    am_ = [am for (hb2, _c, am, (sb, sbb)) in parts if sb is a and sbb == x[0]]
+                    neutral_ok = neutral_ok and bool(am_) and any(v == ("param", 4) or v[0] == "param" for v in am_[0].values())
+                saved = a.defs
+                try:
+                    # the inline arm is judged on the remaining definitions of the return value
+                    a.defs = (lambda orig=saved: {k_: ([d for d in v_ if not (k_ == 0 and d[0] in helper_blocks)])
+                                                 for k_, v_ in orig().items()})
+                    inline_ok = _acc_threaded(a, ctx, 1)
+                finally:
+                    a.defs = saved
+                good = neutral_ok and inline_ok and all(_acc_threaded(h[0], h[1], 1) for h in helper_defs if h is not None)
             else:
                 good = _acc_threaded(a, ctx)
             out.append(Ob("EACH", k, "ok" if good else "viol", loc,
